@@ -100,6 +100,9 @@ func DecompressLZW(src *Buffer, skip uint) (dst *Buffer, err error) {
 	}
 	source := src.B[skip:]
 	lenUnpacked := int(binary.BigEndian.Uint32(source[:4]))
+	if err := checkUnpackedSize(lenUnpacked, len(source)); err != nil {
+		return nil, err
+	}
 	reader := lzw.NewReader(bytes.NewBuffer(source[4:]), lzw.LSB, 8)
 	dst = TakeBuffer()
 	dst.Allocate(lenUnpacked)
@@ -114,6 +117,9 @@ func DecompressZLIB(src *Buffer, skip uint) (dst *Buffer, err error) {
 	}
 	source := src.B[skip:]
 	lenUnpacked := int(binary.BigEndian.Uint32(source[:4]))
+	if err := checkUnpackedSize(lenUnpacked, len(source)); err != nil {
+		return nil, err
+	}
 	reader, err := zlib.NewReader(bytes.NewBuffer(source[4:]))
 	if err != nil {
 		return nil, err
@@ -131,6 +137,9 @@ func DecompressGZIP(src *Buffer, skip uint) (dst *Buffer, err error) {
 	}
 	source := src.B[skip:]
 	lenUnpacked := int(binary.BigEndian.Uint32(source[:4]))
+	if err := checkUnpackedSize(lenUnpacked, len(source)); err != nil {
+		return nil, err
+	}
 	reader, err := gzip.NewReader(bytes.NewBuffer(source[4:]))
 	if err != nil {
 		return nil, err
@@ -142,6 +151,16 @@ func DecompressGZIP(src *Buffer, skip uint) (dst *Buffer, err error) {
 		return nil, err
 	}
 	return
+}
+
+// checkUnpackedSize refuses a declared unpacked size that no compressor could have
+// produced from that little data (deflate tops out near 1032:1, 12-bit LZW below
+// 3000:1), before a buffer of that size is allocated.
+func checkUnpackedSize(unpacked int, packed int) error {
+	if unpacked > 4096*packed+65536 {
+		return fmt.Errorf("declared unpacked size %d is out of proportion to %d bytes of data", unpacked, packed)
+	}
+	return nil
 }
 
 func decompress(dst []byte, reader io.Reader) error {
